@@ -35,7 +35,12 @@ structure Holds (cfg : Cfg) : Prop where
   rejects : ∀ e : Entry, e.data.length ≤ 2 ^ 30 → accepts cfg e = true → Encodable e
   /-- …and the layer the engine actually calls, `chroniclerV2.Write`, lets its caller know: a
       treasure whose entry cannot be encoded is reported, not silently dropped -/
-  apiRejects : ∀ t : Treasure, t.data.length ≤ 2 ^ 30 → ¬ Encodable (entryOf t) → chronReports cfg t = true
+  apiRejects : ∀ t : Treasure, t.data.length ≤ 2 ^ 30 → ¬ Encodable (entryOf t) → apiReports cfg t = true
+  /-- a swamp name whose file the writer refuses to create is refused by the API as well (otherwise
+      every write to that swamp is acknowledged and silently lost) -/
+  apiNameRejects : ∀ name : Bytes, createFileCfg cfg name 0 = none → apiAcceptsName cfg name = false
+  /-- the chronicler's INSERT / UPDATE choice cannot change what is read back -/
+  opChoice : ∀ ts : List Treasure, specOf ((ts.map entryOf).map asInsert) = specOf (ts.map entryOf)
   /-- whatever has left the write buffer loads to the Spec state of exactly those acknowledged
       writes (after flush/sync/close: of all acknowledged writes) -/
   replays : ∀ (codec : Codec) (crc : Checksum) (bs : Nat) (name : Bytes) (now : Nat) (ops : List Op),
@@ -65,7 +70,8 @@ theorem replays_partial (cfg : Cfg) (hd : cfg.deleteRemoves = true) : HoldsParti
 /-- the facts under which the property holds in full -/
 def Good (cfg : Cfg) : Prop :=
   cfg.rejectsEmptyKey = true ∧ cfg.rejectsLongKey = true ∧ cfg.deleteRemoves = true ∧ cfg.flushAtCount = true ∧
-  cfg.chronSurfacesError = true
+  (cfg.chronSurfacesError = true ∨ cfg.apiValidatesKeys = true) ∧
+  (cfg.rejectsLongName = true → cfg.apiBoundsNameLength = true)
 
 theorem encodable_of_accepts (cfg : Cfg) (h1 : cfg.rejectsEmptyKey = true) (h2 : cfg.rejectsLongKey = true)
     (e : Entry) (hd : e.data.length ≤ 2 ^ 30) (ha : accepts cfg e = true) : Encodable e := by
@@ -79,16 +85,25 @@ theorem encodable_of_accepts (cfg : Cfg) (h1 : cfg.rejectsEmptyKey = true) (h2 :
 /-- **C01 holds** for every history, block size, name, codec and checksum when `WriteEntry`
     validates keys, the buffer flushes before the 16-bit count wraps and `LoadIndex` handles deletes. -/
 theorem holds_of_good (cfg : Cfg) (hg : Good cfg) : Holds cfg := by
-  obtain ⟨h1, h2, h3, h4, h5⟩ := hg
-  refine ⟨encodable_of_accepts cfg h1 h2, ?_, ?_⟩
+  obtain ⟨h1, h2, h3, h4, h5, h6⟩ := hg
+  refine ⟨encodable_of_accepts cfg h1 h2, ?_, ?_, fun ts => insert_update_equivalent _, ?_⟩
   · intro t hd hne
-    simp only [chronReports, h5, Bool.true_and, Bool.not_eq_true']
+    have h5' : (cfg.chronSurfacesError || cfg.apiValidatesKeys) = true := by
+      rcases h5 with h | h <;> simp [h]
+    simp only [apiReports, h5', Bool.true_and, Bool.not_eq_true']
     cases ha : accepts cfg (entryOf t) with
     | false => rfl
     | true =>
       exfalso; apply hne
       apply encodable_of_accepts cfg h1 h2 _ _ ha
       unfold entryOf; split <;> simp <;> omega
+  · intro name hc
+    unfold createFileCfg at hc
+    split at hc
+    · rename_i hcond
+      simp only [Bool.and_eq_true, decide_eq_true_eq] at hcond
+      simp [apiAcceptsName, h6 hcond.1, hcond.2]
+    · cases hc
   intro codec crc bs name now ops hbs hn hp
   have hP : Params cfg bs := ⟨hbs, Or.inl h4⟩
   have hW : WritesOK cfg ops := fun e he ha => ⟨encodable_of_accepts cfg h1 h2 e (hp e he) ha, hp e he⟩
@@ -101,7 +116,7 @@ def demoOps : List Op :=
    .write ⟨2, [0x61], [9]⟩, .write ⟨3, [0x62], []⟩, .sync, .close, .reopen,
    .write ⟨1, [0x63], []⟩, .flush, .write ⟨1, [], [7]⟩, .close]
 
-example : Good goodCfg := ⟨rfl, rfl, rfl, rfl, rfl⟩
+example : Good goodCfg := ⟨rfl, rfl, rfl, rfl, Or.inl rfl, fun _ => rfl⟩
 example : PayloadsSane demoOps := by
   intro e he; simp [demoOps, writesOf] at he; rcases he with h | h | h | h | h | h <;> subst h <;> decide
 example : specFold goodCfg demoOps = [([0x63], []), ([0x61], [9])] := by decide
@@ -152,10 +167,22 @@ theorem not_holds_of_acceptsLongKey (cfg : Cfg) (h : cfg.rejectsLongKey = false)
 
 /-- a chronicler that only logs the writer's refusal: the caller of `Write` (the swamp, hence the
     gateway that already acknowledged the `Set`) never learns that the record was not stored -/
-theorem not_holds_of_silentDrop (cfg : Cfg) (h : cfg.chronSurfacesError = false) : ¬ Holds cfg := by
+theorem not_holds_of_silentDrop (cfg : Cfg) (h : cfg.chronSurfacesError = false) (h' : cfg.apiValidatesKeys = false) :
+    ¬ Holds cfg := by
   intro hh
   have := hh.apiRejects ⟨[], [], false, false⟩ (by decide) (by decide)
-  simp [chronReports, h] at this
+  simp [apiReports, h, h'] at this
+
+/-- the writer refuses a name longer than 65535 bytes but the gateway accepts it: `Set` answers NEW,
+    every `Write` fails in `ensureWriter` and is only logged -/
+theorem not_holds_of_apiAcceptsLongName (cfg : Cfg) (h : cfg.rejectsLongName = true) (h' : cfg.apiBoundsNameLength = false) :
+    ¬ Holds cfg := by
+  intro hh
+  have hl : (List.replicate 65536 (0x61 : UInt8)).length = 65536 := List.length_replicate
+  have := hh.apiNameRejects (List.replicate 65536 0x61) (by unfold createFileCfg; rw [hl]; simp [h])
+  unfold apiAcceptsName at this
+  rw [hl] at this
+  simp [h'] at this
 
 /-- wherever a block holding one of these two accepted entries sits in a file, `LoadIndex` of the
     whole file fails with `ErrEmptyKey`: every record of the swamp becomes unreadable -/
@@ -404,6 +431,10 @@ structure Facts where
   /-- `openExistingFile` truncates the file behind the last complete block (proved to be the identity
       on every file the writer leaves behind: `openExisting_ok`) -/
   openCutsTornTail : Tri
+  /-- `createNewFile` refuses a swamp name longer than 65535 bytes (the C29 fact) -/
+  writerRejectsLongName : Tri
+  /-- `isValidSwampName` bounds the name length by 65535 -/
+  apiBoundsNameLength : Tri
   deriving Repr
 
 def cfgOf (f : Facts) : Cfg :=
@@ -413,7 +444,10 @@ def cfgOf (f : Facts) : Cfg :=
     flushGe := f.flushCmp != .gt
     flushAtCount := f.flushAtCount.isYes
     deleteRemoves := f.deleteRemoves.isYes
-    chronSurfacesError := f.chronSurfacesError.isYes || f.apiValidatesKeys.isYes
+    chronSurfacesError := f.chronSurfacesError.isYes
+    apiValidatesKeys := f.apiValidatesKeys.isYes
+    rejectsLongName := f.writerRejectsLongName.isYes
+    apiBoundsNameLength := f.apiBoundsNameLength.isYes
     openCutsTornTail := f.openCutsTornTail.isYes }
 
 /-- the model's fixed layout is the code's layout -/
@@ -426,6 +460,7 @@ def layoutOk (f : Facts) : Bool :=
 def hasUnknown (f : Facts) : Bool :=
   f.rejectsEmptyKey == .unknown || f.rejectsLongKey == .unknown || f.flushCmp == .unknown ||
   f.flushAtCount == .unknown || f.deleteRemoves == .unknown || f.openCutsTornTail == .unknown ||
+  f.writerRejectsLongName == .unknown || (f.writerRejectsLongName == .yes && f.apiBoundsNameLength == .unknown) ||
   (f.chronSurfacesError != .yes && f.apiValidatesKeys != .yes && (f.chronSurfacesError == .unknown || f.apiValidatesKeys == .unknown))
 
 def findings (f : Facts) : List String :=
@@ -433,7 +468,8 @@ def findings (f : Facts) : List String :=
   (if f.rejectsLongKey == .no then ["C01-long-key-accepted"] else []) ++
   (if f.deleteRemoves == .no then ["C01-delete-not-replayed"] else []) ++
   (if f.flushAtCount == .no then ["C01-block-entry-count-overflow"] else []) ++
-  (if f.chronSurfacesError == .no && f.apiValidatesKeys == .no then ["C01-chronicler-drops-refused-entry"] else [])
+  (if f.chronSurfacesError == .no && f.apiValidatesKeys == .no then ["C01-chronicler-drops-refused-entry"] else []) ++
+  (if f.writerRejectsLongName == .yes && f.apiBoundsNameLength == .no then ["C01-api-acks-unstorable-name"] else [])
 
 def classify (f : Facts) : Verdict :=
   if !layoutOk f then .undetermined "storage layout facts (field widths / flush order / metadata handling / per-entry flush in WriteEntries and compaction / scan-to-EOF) differ from the model"
@@ -452,7 +488,7 @@ theorem classify_sound (f : Facts) : (classify f).Sound (Holds (cfgOf f)) (Parti
     · trivial
     · rename_i hl hu
       simp only [hasUnknown, Bool.or_eq_true, beq_iff_eq, not_or] at hu
-      obtain ⟨⟨⟨⟨⟨⟨hu1, hu2⟩, _⟩, hu4⟩, hu5⟩, _⟩, hu6⟩ := hu
+      obtain ⟨⟨⟨⟨⟨⟨⟨⟨hu1, hu2⟩, _⟩, hu4⟩, hu5⟩, _⟩, hu7⟩, hu8⟩, hu6⟩ := hu
       have hpart : Partial f := by
         intro hd
         exact replays_partial (cfgOf f) (by simp [cfgOf, hd, Tri.isYes])
@@ -468,11 +504,15 @@ theorem classify_sound (f : Facts) : (classify f).Sound (Holds (cfgOf f)) (Parti
             · by_cases h4 : f.flushAtCount = .no
               · exact not_holds_of_noCountFlush _ (by simp [cfgOf, h4, Tri.isYes])
               · by_cases h5 : f.chronSurfacesError = .no ∧ f.apiValidatesKeys = .no
-                · exact not_holds_of_silentDrop _ (by simp [cfgOf, h5.1, h5.2, Tri.isYes])
-                · exfalso
-                  have : ¬ (f.chronSurfacesError = .no ∧ f.apiValidatesKeys = .no) := h5
-                  simp [findings, h1, h2, h3, h4] at hf
-                  exact this hf
+                · exact not_holds_of_silentDrop _ (by simp [cfgOf, h5.1, Tri.isYes]) (by simp [cfgOf, h5.2, Tri.isYes])
+                · by_cases h6 : f.writerRejectsLongName = .yes ∧ f.apiBoundsNameLength = .no
+                  · exact not_holds_of_apiAcceptsLongName _ (by simp [cfgOf, h6.1, Tri.isYes]) (by simp [cfgOf, h6.2, Tri.isYes])
+                  · exfalso
+                    have e5 : (f.chronSurfacesError == .no && f.apiValidatesKeys == .no) = false := by
+                      cases ha : f.chronSurfacesError <;> cases hb : f.apiValidatesKeys <;> simp_all
+                    have e6 : (f.writerRejectsLongName == .yes && f.apiBoundsNameLength == .no) = false := by
+                      cases ha : f.writerRejectsLongName <;> cases hb : f.apiBoundsNameLength <;> simp_all
+                    simp [findings, h1, h2, h3, h4, e5, e6] at hf
       · rename_i hf
         have h1 : f.rejectsEmptyKey = .yes := by
           cases h : f.rejectsEmptyKey <;> simp_all [findings]
@@ -482,9 +522,11 @@ theorem classify_sound (f : Facts) : (classify f).Sound (Holds (cfgOf f)) (Parti
           cases h : f.deleteRemoves <;> simp_all [findings]
         have h4 : f.flushAtCount = .yes := by
           cases h : f.flushAtCount <;> simp_all [findings]
-        have h5 : (f.chronSurfacesError.isYes || f.apiValidatesKeys.isYes) = true := by
+        have h5 : f.chronSurfacesError.isYes = true ∨ f.apiValidatesKeys.isYes = true := by
           cases ha : f.chronSurfacesError <;> cases hb : f.apiValidatesKeys <;> simp_all [findings, Tri.isYes]
+        have h6 : f.writerRejectsLongName.isYes = true → f.apiBoundsNameLength.isYes = true := by
+          cases ha : f.writerRejectsLongName <;> cases hb : f.apiBoundsNameLength <;> simp_all [findings, Tri.isYes]
         exact holds_of_good _ ⟨by simp [cfgOf, h1, Tri.isYes], by simp [cfgOf, h2, Tri.isYes],
-          by simp [cfgOf, h3, Tri.isYes], by simp [cfgOf, h4, Tri.isYes], by simpa [cfgOf] using h5⟩
+          by simp [cfgOf, h3, Tri.isYes], by simp [cfgOf, h4, Tri.isYes], by simpa [cfgOf] using h5, by simpa [cfgOf] using h6⟩
 
 end Hv.C01
